@@ -269,6 +269,95 @@ pub fn run(cat: &Catalog, cfg: &Config, stats: &mut Stats, run_seed: u64) -> Vec
         }
     }
 
+    // C13: enum values inside a sequence - written at one release in the known-length form (Vec), in
+    // the unknown-length form by the library itself (a streaming writer) or by the reference peer,
+    // read as a vector at another release; an element whose constructor the reader does not know
+    // (written by a newer release, or rewritten by a fault) fails the whole decode
+    if focus == "C13" {
+        for _ in 0..2 {
+            let info = &cat.infos[*sw.pick(&pool)];
+            let (w, r) = (sw.usize_below(releases), sw.usize_below(releases));
+            let (wn, rn) = (format!("{}_V{w}", info.name), format!("{}_V{r}", info.name));
+            let streamed = sw.chance(1, 2);
+            let Some(w_e) = cat.by_name(&if streamed { format!("Streamed<{wn}>") } else { format!("Vec<{wn}>") }) else { continue };
+            let Some(r_e) = cat.by_name(&format!("Vec<{rn}>")) else { continue };
+            let val = gen.val(&w_e.ty, &mut wl);
+            let elems = match &val {
+                Val::Seq(xs) => xs.clone(),
+                _ => continue,
+            };
+            // version-0 data of a constructor that later lost a field cannot be skipped (DESIGN 9.1)
+            if elems.iter().any(|x| steps_of(&cat.reg, &wn, x).is_empty() && has_removal(reader_steps(&cat.reg, &rn, &wn, x))) {
+                run.stats.count("excluded.v0_removal_leftover");
+                continue;
+            }
+            let peer = !streamed && sw.chance(1, 2);
+            let bytes = if peer {
+                ref_encode(&cat.reg, &w_e.ty, &val, Forms::mixed(wl.derive("forms")))
+            } else {
+                match contain(u64::MAX, || (w_e.encode)(&val)).0 {
+                    Outcome::Ok(b) => b,
+                    _ => {
+                        run.stats.count("encode_failed");
+                        continue;
+                    }
+                }
+            };
+            let exp = evo.convert(&w_e.ty, &r_e.ty, &val);
+            run.stats.count("probe.enum_in_sequence_case");
+            if exp.is_err() {
+                run.stats.count("probe.enum_in_sequence_unknown_to_reader");
+            }
+            let how = if streamed { "streamed (unknown-length form)" } else if peer { "written by the reference peer" } else { "known-length form" };
+            run.trace.push(format!("a node at release {w} writes {} x {wn}, {how}; a node at release {r} reads them", elems.len()));
+            let mut full = bytes.clone();
+            full.push(0x5a);
+            let mut c = Case::new("C13", "script", r_e.name, full);
+            c.enc_len = c.input.len();
+            c.batch = vec![(r_e.name.to_string(), expectation(&exp))];
+            if exp.is_ok() {
+                c.batch.push(("u8".to_string(), "ok:U(90)".to_string()));
+            } else {
+                c.check_rem = false;
+            }
+            c.fault = format!("{} x {wn} {how} -> read as {}", elems.len(), r_e.name);
+            c.fault_kind = if peer { "P-peer".into() } else { "P-ver".into() };
+            run.submit(c);
+            // one element's constructor index rewritten to one the reader does not know
+            if faulty {
+                if let (Ok(d), AdtDef::Enum(rdef)) = (ref_decode(&cat.reg, &w_e.ty, &bytes), cat.reg.get(&rn)) {
+                    let idx: Vec<&model::dec::Mark> = d.marks.iter().filter(|m| m.role == Role::CtorIdx && m.depth == 1).collect();
+                    if !idx.is_empty() {
+                        let m = *fl.pick(&idx);
+                        let n = rdef.wire_order().len() as u32;
+                        let cands = [n, n + 1 + fl.below(100) as u32, 256 + fl.below(n.max(1) as u64) as u32, u32::MAX];
+                        let j = *fl.pick(&cands);
+                        let mut enc = Vec::new();
+                        let mut v = j;
+                        loop {
+                            let b = (v & 0x7f) as u8;
+                            v >>= 7;
+                            if v == 0 {
+                                enc.push(b);
+                                break;
+                            }
+                            enc.push(b | 0x80);
+                        }
+                        let mut input = bytes.clone();
+                        input.splice(m.off..m.off + m.len, enc);
+                        let mut c = Case::new("C13", "script", r_e.name, input);
+                        c.batch = vec![(r_e.name.to_string(), "err".into())];
+                        c.check_rem = false;
+                        c.fault = format!("{} x {wn} {how} -> read as {}: constructor index of one element rewritten {} -> {j}", elems.len(), r_e.name, m.value);
+                        c.fault_kind = "F-frame".into();
+                        run.trace.push(format!("fault F-frame: constructor index {} -> {j} at offset {}", m.value, m.off));
+                        run.submit(c);
+                    }
+                }
+            }
+        }
+    }
+
     // C12: the container matrix - what one container wrote, read as every other one of its group
     if focus == "C12" {
         for _ in 0..4 {
